@@ -249,7 +249,8 @@ fn canon(s: &Suite, sut: &Sut, model: &Model, d: &feoxdb::verif::StoreDump) -> u
     p.push(0xfc);
     for c in &d.cache {
         p.extend_from_slice(&hash64(&[&c.key]).to_le_bytes());
-        p.push(c.record_live as u8);
+        // (whether the cached generation's allocation is still alive depends on when the
+        // flush worker drops its queue entries: superseded either way, same behaviour)
         p.push(c.referenced as u8);
         p.push(d.records.iter().any(|r| Some(r.ptr) == c.record_ptr) as u8);
     }
@@ -355,6 +356,25 @@ pub fn run_path(s: &Suite, hist: &[u16], parent_outs_hash: Option<u64>, verbose:
         sut.sess.mark(1, i as u64);
         let out = sut.apply(&s.tables, &op);
         let ts = crate::sched::take_thread_timestamp();
+        if matches!(op, Op::Reopen) && out == Out::Unit && !s.log_io {
+            // a reopened store draws new hash seeds: re-establish pairwise distinct
+            // version-clock shards for the alphabet keys (reopening again is a no-op logically)
+            for _ in 0..100 {
+                let mut shards: Vec<usize> = s
+                    .tables
+                    .keys
+                    .iter()
+                    .filter(|k| !k.is_empty() && k.len() <= 100 * 1024)
+                    .map(|k| sut.store().verif_clock_shard_of(k))
+                    .collect();
+                let n = shards.len();
+                shards.sort();
+                shards.dedup();
+                if shards.len() == n || sut.reopen().is_err() {
+                    break;
+                }
+            }
+        }
         sut.sess.mark(2, i as u64);
         model.now = sut.now();
         if verbose {
@@ -555,6 +575,13 @@ pub fn explore(
                         g.push((h.clone(), v.clone()));
                     }
                     continue;
+                }
+                if let Ok(path) = std::env::var("VERIF_DUMP_CANON") {
+                    use std::io::Write;
+                    if let Ok(mut f) = std::fs::OpenOptions::new().create(true).append(true).open(path) {
+                        let line = format!("{:?} {:016x} {:016x}\n", h, po.canon, po.outs_hash);
+                        let _ = f.write_all(line.as_bytes());
+                    }
                 }
                 outcomes.lock().unwrap().insert(po.outs_hash);
                 if seen.lock().unwrap().insert(po.canon) {
